@@ -64,6 +64,9 @@ var frameKinds = []frameKind{
 	{"sync", "(*Mutex).Lock", "/goroot/src/sync/mutex.go", 80, 4},
 	{"example.com/m", "Run", "/work/m/run.go", 5, 1},
 	{"unknown/pkg", "F", "/somewhere/f.go", 1, 0},
+	{"main", "worker", "/home/u/b/a.go", 10, 1},
+	{"main", "worker", "/home/u/a/b.go", 20, 1},
+	{"main", "worker", "/home/u/a/a.go", 20, 1},
 }
 
 func mkCall(k frameKind, args []MArg, elided bool) MCall {
@@ -90,6 +93,7 @@ var sigStates = []string{"running", "chan receive", "select", "IO wait"}
 type SigFamily struct {
 	frames []frameKind
 	elided bool
+	proc   bool // the calls carry a typed rendering (Args.Processed), as after source analysis
 }
 
 func GenFamily(r *Rng) SigFamily {
@@ -108,7 +112,13 @@ func (f SigFamily) Draw(r *Rng, spread int) MSig {
 	s.Created.Calls = []MCall{}
 	for _, k := range f.frames {
 		av := argVariants[r.Intn(min(len(argVariants), 2+spread*3))]
-		s.Stack.Calls = append(s.Stack.Calls, mkCall(k, av, r.Chance(1, 12)))
+		c := mkCall(k, av, r.Chance(1, 12))
+		if f.proc {
+			for _, v := range av {
+				c.Args.Processed = append(c.Args.Processed, hb(fmt.Sprintf("int(%d)", v.V)))
+			}
+		}
+		s.Stack.Calls = append(s.Stack.Calls, c)
 	}
 	if r.Chance(1, 1+spread) {
 		s.State = hb(sigStates[r.Intn(len(sigStates))])
@@ -128,8 +138,12 @@ func (f SigFamily) Draw(r *Rng, spread int) MSig {
 func GenSnapshot(r *Rng, maxG int) []MG {
 	nf := 1 + r.Intn(3)
 	fams := make([]SigFamily, nf)
+	// the typed rendering is a function of the source and the values: all the
+	// calls of a snapshot have it, or none
+	proc := r.Chance(1, 4)
 	for i := range fams {
 		fams[i] = GenFamily(r)
+		fams[i].proc = proc
 	}
 	n := 1 + r.Intn(maxG)
 	spread := r.Intn(4)
